@@ -1,6 +1,6 @@
 (* M17 (a): pyflyby._modules.ModuleHandle._member_from_node and ModuleHandle.exports
    (the static scan behind collect-exports and replace-star-imports), as repaired by
-   fixes/F18-exports-member-from-node.diff.  Model only; proofs are in ScanProofs.v.
+   fixes/F18-exports-member-from-node.diff and fixes/C19a-exports-annotated-all.diff.  Model only; proofs are in ScanProofs.v.
 
    The module source enters as a *summary*: the list of top-level `ast` nodes reduced to what the
    scan looks at.  It is produced by the harness from CPython's `ast` on the very file the
@@ -26,7 +26,7 @@ Inductive lit :=
 
 Inductive node :=
 | NAssign (ts : list target) (v : lit)                 (* t1 = t2 = ... = value *)
-| NAnnAssign (t : target) (hasv : bool)                (* t: ann [= value] *)
+| NAnnAssign (t : target) (v : option lit)             (* t: ann [= value]; None: no value *)
 | NClassDef (n : str)
 | NFunctionDef (n : str)
 | NAsyncFunctionDef (n : str)
@@ -63,7 +63,7 @@ Fixpoint target_names (t : target) : list str :=
 Definition member_from_node (n : node) : list str :=
   match n with
   | NAssign ts _ => flat_map target_names ts
-  | NAnnAssign t hasv => if hasv then target_names t else []
+  | NAnnAssign t v => match v with Some _ => target_names t | None => [] end
   | NClassDef x => [x]
   | NFunctionDef x => [x]
   | NAsyncFunctionDef x => [x]
@@ -86,38 +86,45 @@ Definition members_with (mfn : node -> list str) (ns : list node) : list str := 
 Definition members := members_with member_from_node.
 
 (*  for n in ast_mod:
-        if isinstance(n, ast.Assign):
+        if isinstance(n, (ast.Assign, ast.AnnAssign)):                   (AnnAssign: C19-a repair)
             if "__all__" in self._member_from_node(n):
                 try: all_members = list(ast.literal_eval(n.value)); all_is_good = True
                 except (ValueError, TypeError): all_is_good = False
         elif isinstance(n, ast.AugAssign) and isinstance(n.target, ast.Name) and \
              n.target.id == "__all__" and all_is_good:
             try: all_members += list(ast.literal_eval(n.value))
-            except (ValueError, TypeError): all_is_good = False
-    (an annotated `__all__: T = [...]` passes the gate `"__all__" in members` but is not an
-     ast.Assign: it leaves all_is_good False)                                             *)
+            except (ValueError, TypeError): all_is_good = False                               *)
 Definition is_all_aug (t : target) : bool :=
   match t with TName x => str_eqb x all_name | _ => false end.
+
+(* the value assigned to __all__ by a plain or annotated assignment statement, if n is one *)
+Definition all_assign_of (mfn : node -> list str) (n : node) : option lit :=
+  match n with
+  | NAssign _ v => if mem_str all_name (mfn n) then Some v else None
+  | NAnnAssign _ (Some v) => if mem_str all_name (mfn n) then Some v else None
+  | _ => None
+  end.
 
 Fixpoint scan_all (mfn : node -> list str) (ns : list node) (good : bool) (acc : list (option str))
   : bool * list (option str) :=
   match ns with
   | [] => (good, acc)
-  | NAssign ts v :: r =>
-      if mem_str all_name (mfn (NAssign ts v)) then
-        match v with
-        | LitOK l => scan_all mfn r true l
-        | LitFail => scan_all mfn r false acc
-        end
-      else scan_all mfn r good acc
-  | NAugAssign t v :: r =>
-      if is_all_aug t && good then
-        match v with
-        | LitOK l => scan_all mfn r true (acc ++ l)
-        | LitFail => scan_all mfn r false acc
-        end
-      else scan_all mfn r good acc
-  | _ :: r => scan_all mfn r good acc
+  | n :: r =>
+      match all_assign_of mfn n with
+      | Some (LitOK l) => scan_all mfn r true l
+      | Some LitFail => scan_all mfn r false acc
+      | None =>
+          match n with
+          | NAugAssign t v =>
+              if is_all_aug t && good then
+                match v with
+                | LitOK l => scan_all mfn r true (acc ++ l)
+                | LitFail => scan_all mfn r false acc
+                end
+              else scan_all mfn r good acc
+          | _ => scan_all mfn r good acc
+          end
+      end
   end.
 
 (*  all_is_good = False; all_members = []
@@ -225,7 +232,7 @@ Definition module_exports (name : str) (is_init : bool) (ex : str -> bool) (summ
 Definition binds (n : node) : list str :=
   match n with
   | NAssign ts _ => flat_map target_names ts
-  | NAnnAssign t hasv => if hasv then target_names t else []
+  | NAnnAssign t v => match v with Some _ => target_names t | None => [] end
   | NClassDef x => [x]
   | NFunctionDef x => [x]
   | NAsyncFunctionDef x => [x]
